@@ -82,6 +82,12 @@ NamedPayloadProg(i) ==
     [id |-> "PN" \o ToString(i), family |-> "data",
      methods |-> << [RM(1, <<"h1">>, on, "tn", "none") EXCEPT !.name = "on_ok"] >>]
 
+(* one payload parameter of type Binary *without* the raw marker: it is encoded and decoded like any other typed parameter *)
+BinPayloadProg(i) ==
+    LET on == IF i = 1 THEN "success" ELSE IF i = 2 THEN "error" ELSE "always" IN
+    [id |-> "PB" \o ToString(i), family |-> "data",
+     methods |-> << [RM(1, <<"h1">>, on, "bin", "none") EXCEPT !.name = "on_ok"] >>]
+
 LegacyProg(i) == [id |-> "L" \o ToString(i), family |-> "legacy",
                   \* L3: the reply method is not called `reply`, and a sudo handler taking a Reply is (a decoy: it must never get a reply)
                   methods |-> << [RM(IF i = 3 THEN 1 ELSE i, <<>>, "always", "raw", "none") EXCEPT !.name = IF i = 3 THEN "on_reply" ELSE "reply"] >>,
@@ -99,6 +105,7 @@ CompiledProgs ==
       \cup {DataProgMerged(i, b) : i \in {1, 3, 5}, b \in BOOLEAN}
       \cup {MixProg(i) : i \in 1..4}
       \cup {NamedPayloadProg(i) : i \in 1..3}
+      \cup {BinPayloadProg(i) : i \in 1..3}
       \cup {LegacyProg(i) : i \in 1..3}))
 
 (* ------------------------------------------------------------ the machine *)
